@@ -6,6 +6,7 @@ import TinodeVerif.Driver.C19
 import TinodeVerif.Driver.C12
 import TinodeVerif.Driver.C18
 import TinodeVerif.Driver.World
+import TinodeVerif.Driver.Gate
 /-!
 Line-protocol driver. Usage:
   driver model    < ops.txt        > model.out     one output line per op line
@@ -85,6 +86,19 @@ partial def loopWorld (h : IO.FS.Stream) (out : IO.FS.Stream) (st : Driver.World
     | some (st', o) => out.putStrLn o; loopWorld h out st'
     | none => out.putStrLn "bad-op"; loopWorld h out st
 
+partial def loopGate (h : IO.FS.Stream) (out : IO.FS.Stream) (st : Driver.Gate.St) : IO Unit := do
+  let line ← h.getLine
+  if line.isEmpty then return ()
+  let l := if line.endsWith "\n" then (line.dropEnd 1).toString else line
+  let ws := Wire.words l
+  if ws.isEmpty then
+    out.putStrLn ""
+    loopGate h out st
+  else
+    match Driver.Gate.step st ws with
+    | some (st', o) => out.putStrLn o; loopGate h out st'
+    | none => out.putStrLn "bad-op"; loopGate h out st
+
 partial def loop (h : IO.FS.Stream) (out : IO.FS.Stream) (f : String → String) : IO Unit := do
   let line ← h.getLine
   if line.isEmpty then return ()
@@ -99,4 +113,5 @@ def main (args : List String) : IO UInt32 := do
   | ["model"] => loopModel stdin stdout {}; stdout.flush; return 0
   | ["verdict"] => loop stdin stdout verdictLine; stdout.flush; return 0
   | ["world"] => loopWorld stdin stdout {}; stdout.flush; return 0
+  | ["gate"] => loopGate stdin stdout {}; stdout.flush; return 0
   | _ => IO.eprintln "usage: driver model|verdict"; return 2
